@@ -239,6 +239,21 @@ class Facts:
                                 cands.append(m)
                                 break
             cands = list({id(c): c for c in cands}.values())
+            if len(cands) > 1:
+                # the periodic check is the one the run loops call; a one-off poll (entry of a nested interpreter) is not
+                # (reached from a run loop through methods of the interpreter class only - not through natives)
+                seen = {id(f): f for f, _ in self.dispatch_loops()}
+                q = list(seen.values())
+                while q:
+                    g = q.pop()
+                    for cs in self.ctx.cg.sites_of.get(id(g), []):
+                        for t in cs.targets:
+                            if id(t) not in seen and t.cls is not None and t.cls in self.t.mro(df.cls) and cs.kind == "resolved":
+                                seen[id(t)] = t
+                                q.append(t)
+                called = [c for c in cands if id(c) in seen]
+                if len(called) == 1:
+                    cands = called
             if len(cands) != 1:
                 raise AnalysisError(f"expected exactly one limit-check method, found {[c.qual for c in cands]}")
             self._limit_check = cands[0]
